@@ -612,6 +612,26 @@ def main(run):
             run.violation("PhonopyQHA", "t_max-prefix", "volume_temperature with t_max is not the prefix of the result without t_max", c["info"])
         run.count("oracle-pressure-shape-tmax", section="oracle")
 
+    # ---------------------------------------------------------------- observation (not a property clause): volumes are documented as numbers in A^3; no QHA path
+    # takes PhonopyAtoms.volume itself, but a caller who feeds `cell.volume` of LEFT-HANDED cells (negative determinant) gets no error
+    if qcases:
+        c_, fph_, qha_ = next((q_ for q_ in qcases if q_[0]["outside"] is None and q_[0]["pressure"] is None), qcases[0])
+        try:
+            with warnings.catch_warnings():
+                warnings.simplefilter("ignore")
+                from phonopy import PhonopyQHA as _PQ
+                qn = _PQ(volumes=-np.array(c_["vols"]), electronic_energies=np.array(c_["el"]), temperatures=np.array(c_["temps"]), free_energy=np.array(fph_),
+                         cv=np.array(c_["cv"]), entropy=np.array(c_["ent"]), eos=c_["kind"], t_max=c_["tmax"])
+            vneg = np.array(qn.volume_temperature)
+            obs = "accepted silently: V(T) %s, G(T) %s, B(T) %s" % (
+                "= -V(T) of the positive volumes" if close(-vneg, qha_.volume_temperature, float(np.abs(vneg).max()), 1e-6) else "differs",
+                "unchanged" if close(qn.gibbs_temperature, qha_.gibbs_temperature, float(np.abs(np.array(qha_.gibbs_temperature)).max()) + 1.0, 1e-6) else "differs",
+                "unchanged" if close(qn.bulk_modulus_temperature, qha_.bulk_modulus_temperature, float(np.abs(np.array(qha_.bulk_modulus_temperature)).max()), 1e-5)
+                else "sign flipped" if close(-np.array(qn.bulk_modulus_temperature), qha_.bulk_modulus_temperature, float(np.abs(np.array(qha_.bulk_modulus_temperature)).max()), 1e-5) else "differs")
+        except Exception as e_:
+            obs = "rejected: %s" % type(e_).__name__
+        run.cov["oracle"]["negative volumes (cell.volume of a left-handed cell fed by the caller; documented input: numbers in A^3)"] = obs
+
     # ================================================================== model run
     out = common.lean_run_driver("C20", lines)
     if len(out) != len(lines):
